@@ -79,7 +79,7 @@ func genStoreCase(c *Cfg, i int, maxLen int) *StoreCase {
 	n := 1 + rg.IntN(maxLen)
 	nz := len(zoo.Fixed())
 	cs := &StoreCase{Family: "sequence"}
-	ops := []string{"set", "set", "set", "delete", "delete-missing", "merge", "merge-nil", "merge-own-getall", "merge-snapshot", "clear", "set-after-clear", "getall", "keys", "snap-set", "snap-delete", "keys-overwrite", "set-nil"}
+	ops := []string{"set", "set", "set", "delete", "delete-missing", "merge", "merge-nil", "merge-own-getall", "merge-snapshot", "clear", "set-after-clear", "getall", "keys", "snap-set", "snap-delete", "keys-overwrite", "set-nil", "read-typed", "read-typed"}
 	for j := 0; j < n; j++ {
 		st := StoreStep{Op: ops[rg.IntN(len(ops))], Key: rg.IntN(len(storeKeys)), Val: rg.IntN(nz)}
 		switch st.Op {
@@ -128,6 +128,19 @@ func runStoreCaseWith(cs *StoreCase, z []zoo.Named, probe storeProbe) (key, deta
 		case "set":
 			s.Set(k, v)
 			ref[k] = v
+		case "read-typed": // reads — typed getters and Bind — never change what the store holds
+			func() {
+				defer func() { recover() }() // totality of the accessors is C15's subject
+				_ = s.GetSlice(k)
+				_ = s.GetSliceOr(k, nil)
+				_ = s.GetInt(k)
+				_ = s.GetFloat64(k)
+				_ = s.GetString(k)
+				_ = s.GetBool(k)
+				_ = s.GetMap(k)
+				var a any
+				_ = s.Bind(k, &a)
+			}()
 		case "set-nil":
 			s.Set(k, nil)
 			ref[k] = nil
